@@ -296,7 +296,7 @@ def _covers_all_nodes(view, arg, src, at):
 
 def rule_N1(ctx):
     prog = ctx.prog
-    ctx.rule("N1", "the networkx graph receives every source node (not only edge end points) before any per-node lookup, and every node's payload, whose keys cover what the MAP code reads", 4)
+    ctx.rule("N1", "the networkx graph receives every source node (not only edge end points) before any per-node lookup, and every node's payload, whose keys cover what the MAP code reads", 5)
     f = prog.fn("process_trace.utils.convert_rustworkx_to_networkx")
     view = _View(f.node)
     src = f.params[0]
@@ -319,7 +319,7 @@ def rule_N1(ctx):
                 if isinstance(c.func, ast.Attribute) and isinstance(c.func.value, ast.Name) and c.func.value.id == G and c.func.attr == "add_nodes_from" and c.args:
                     if _covers_all_nodes(view, c.args[0], src, step.node):
                         return True
-        if step.kind == "iter" and step.taken == 1 and id(step.node) in loops:
+        if step.kind == "iter" and id(step.node) in loops:  # zero iterations: there is no node to add
             l = loops[id(step.node)]
             if isinstance(l.target, ast.Name) and u(l.iter) == "%s.nodes()" % src:
                 for s in l.body:
@@ -636,7 +636,7 @@ def rule_N3_N4(ctx):
     keys_ok = False
     for a in grp:
         ks = a[3][0] if a[3] else dict(a[4]).get("by")
-        if isinstance(ks, tuple) and ks and ks[0] == "list" and [_str_of_key(x) for x in ks[1]] == ["clone_id", "sample_id"]:
+        if isinstance(ks, tuple) and ks and ks[0] == "list" and sorted(str(_str_of_key(x)) for x in ks[1]) == ["clone_id", "sample_id"]:
             keys_ok = keys_ok or any(contains_key(a[2], e) for e in expl)
     ok = bool(expl) and bool(grp) and keys_ok
     ctx.check(ok, "N3", "get_clone_table returns the (clone_id, sample_id) groups of the exploded table", f.where(), "the returned table (%s) is not assembled from groupby(['clone_id', 'sample_id']) of the exploded labels table" % show(ex.result)[:200], construct=f.qualname, stmt="returned table")
@@ -665,7 +665,7 @@ def rule_N3_N4(ctx):
 # ----------------------------------------------------------------------------- N5
 def rule_N5(ctx):
     prog = ctx.prog
-    ctx.rule("N5", "Newick writer: text built in the post-order hook; `(children joined by ,)name` for inner vertices, `name` for leaves; appended once to the parent's list unless root; root text + `;`; parent map and names from the tree's index->name map", 9)
+    ctx.rule("N5", "Newick writer: text built in the post-order hook; `(children joined by ,)name` for inner vertices, `name` for leaves; appended once to the parent's list unless root; root text + `;`; parent map and names from the tree's index->name map", 11)
     cls = prog.cls("tree.visitors.GraphToNewickVisitor")
     if not any("DFSVisitor" in b for b in cls.bases):
         raise AnalysisError("GraphToNewickVisitor is no longer a rustworkx DFSVisitor")
@@ -717,7 +717,8 @@ def rule_N5(ctx):
         join_ok = isinstance(jx, ast.Call) and isinstance(jx.func, ast.Attribute) and jx.func.attr == "join" and isinstance(jx.func.value, ast.Constant) and jx.func.value.value == "," and len(jx.args) == 1 and u(jx.args[0]) == "%s.dict_of_lists[%s]" % (slf, NAME)
         ok = ps[0][1] == "(" and ps[2][1] == ")" and join_ok and view.text(ps[3][1], at) == NAME
         ctx.check(ok, "N5", "inner vertex text is (children joined by ',')name", fv.where(at), "inner text is %s; expected ({','.join(%s.dict_of_lists[name])}){name} with name = %s" % ("".join(_ptext(view, ps, at)), slf, NAME), construct=fv.qualname, stmt="inner text")
-    ctx.check(len(leaf) >= 1 or not inner, "N5", "leaf vertex text is its name", fv.where(), "no alternative of the vertex text is the bare name %s" % NAME, construct=fv.qualname, stmt="leaf text") if (leaf or inner) else None
+    if leaf or inner:
+        ctx.check(bool(leaf), "N5", "leaf vertex text is its name", fv.where(), "no alternative of the vertex text is the bare name %s" % NAME, construct=fv.qualname, stmt="leaf text")
     # which alternative is used: a vertex with children must take the inner form
     if inner and leaf:
         e, at, ps = inner[0]
@@ -843,7 +844,7 @@ def _n6_function(ctx, f):
 
 def rule_N6(ctx):
     prog = ctx.prog
-    ctx.rule("N6", "the tree handed to get_clone_table is the tree whose Newick text is written, the table is built from the run's data / samples / clusters, and each goes to the path named for it", 8)
+    ctx.rule("N6", "the tree handed to get_clone_table is the tree whose Newick text is written, the table is built from the run's data / samples / clusters, and each goes to the path named for it", 10)
     gct = prog.fn(PT + "get_clone_table")
     for name in ("write_map_results", "write_consensus_results", "create_topologies_archive"):
         f = prog.fn(PT + name)
@@ -884,7 +885,6 @@ def rule_N6(ctx):
             added = {vkey(a.args[0]) for a in adds if a.args}
             okp = bool(adds) and written == added
             ctx.check(okp, "N6", "create_topologies_archive: exactly the files just written (table, Newick) are added to the archive", f.where(), "files written: %d, files added: %d, in common: %d" % (len(written), len(added), len(written & added)), construct=f.qualname, stmt="archive members")
-            arcs = [a.kwargs.get("arcname") for a in adds]
             ids = set()
             for a in adds:
                 arc = a.kwargs.get("arcname", a.args[1] if len(a.args) > 1 else None)
@@ -911,3 +911,82 @@ def run(ctx):
     rule_N3_N4(ctx)
     rule_N5(ctx)
     rule_N6(ctx)
+
+
+# ----------------------------------------------------------------------------- self-test catalogue
+_P = "phyclone/process_trace/process_trace.py"
+_U = "phyclone/process_trace/utils.py"
+_V = "phyclone/tree/visitors.py"
+_T = "phyclone/tree/tree.py"
+_N = "phyclone/tree/tree_node.py"
+_LOOP = '        for node in graph.nodes():\n            node_id = node.node_id\n            nx_node = nx_graph.nodes[node_id]\n            nx_node.update(node.to_dict())\n'
+_ADD = "        nx_graph.add_nodes_from(node.node_id for node in graph.nodes())\n"
+_FLAT_LOOP = '        for idx in tree_labels:\n            df_records_list.append(\n                {\n                    "mutation_id": data[idx].name,\n                    "clone_id": tree_labels[idx],\n                }\n            )\n\n            clone_muts.add(data[idx].name)\n'
+_OUT = "    _create_results_output_files(out_table_file, out_tree_file, table, tree)\n\n\ndef create_topology_dict_from_trace"
+SELFTEST = [
+    # ---- N1
+    {"name": "N1-revert-F7", "kind": "break", "rule": "N1", "file": _U, "old": _ADD, "new": ""},
+    {"name": "N1-nodes-added-after-lookup", "kind": "break", "rule": "N1", "file": _U, "old": _ADD + _LOOP, "new": _LOOP + _ADD},
+    {"name": "N1-root-filtered-out", "kind": "break", "rule": "N1", "file": _U, "old": "node.node_id for node in graph.nodes())", "new": 'node.node_id for node in graph.nodes() if node.node_id != "root")'},
+    {"name": "N1-node-objects-as-names", "kind": "break", "rule": "N1", "file": _U, "old": "add_nodes_from(node.node_id for node in graph.nodes())", "new": "add_nodes_from(node for node in graph.nodes())"},
+    {"name": "N1-only-edge-sources-added", "kind": "break", "rule": "N1", "file": _U, "old": "add_nodes_from(node.node_id for node in graph.nodes())", "new": "add_nodes_from(e[0] for e in edge_list)"},
+    {"name": "N1-payload-key-renamed", "kind": "break", "rule": "N1", "file": _N, "old": '"log_R": self.log_r', "new": '"log_r": self.log_r'},
+    {"name": "N1-payload-of-root-for-all", "kind": "break", "rule": "N1", "file": _U, "old": "nx_node.update(node.to_dict())", "new": "nx_node.update(graph[0].to_dict())"},
+    {"name": "N1-payload-only-for-inner-nodes", "kind": "break", "rule": "N1", "file": _U, "old": "            nx_node.update(node.to_dict())", "new": "            if graph.out_degree(graph.nodes().index(node)) > 0:\n                nx_node.update(node.to_dict())"},
+    {"name": "benign-N1-one-statement", "kind": "benign", "file": _U, "old": "            node_id = node.node_id\n            nx_node = nx_graph.nodes[node_id]\n            nx_node.update(node.to_dict())\n", "new": "            nx_graph.nodes[node.node_id].update(node.to_dict())\n"},
+    {"name": "benign-N1-list-of-ids", "kind": "benign", "file": _U, "old": _ADD, "new": "        all_ids = [n.node_id for n in graph.nodes()]\n        nx_graph.add_nodes_from(all_ids)\n"},
+    {"name": "benign-N1-add-node-in-loop", "kind": "benign", "file": _U, "old": _ADD + "        for node in graph.nodes():\n", "new": "        for node in graph.nodes():\n            nx_graph.add_node(node.node_id)\n"},
+    # ---- N2
+    {"name": "N2-fill-in-removed", "kind": "break", "rule": "N2", "file": _P, "old": '        for x in data:\n            if x.name not in clone_muts:\n                df_records_list.append({"mutation_id": x.name, "clone_id": outlier_node_name})\n', "new": ""},
+    {"name": "N2-seen-not-updated", "kind": "break", "rule": "N2", "file": _P, "old": "            clone_muts.add(data[idx].name)\n", "new": ""},
+    {"name": "N2-fill-guard-inverted", "kind": "break", "rule": "N2", "file": _P, "old": "if x.name not in clone_muts:", "new": "if x.name in clone_muts:"},
+    {"name": "N2-clone-is-the-index", "kind": "break", "rule": "N2", "file": _P, "old": '"clone_id": tree_labels[idx],', "new": '"clone_id": idx,'},
+    {"name": "N2-seen-holds-indices", "kind": "break", "rule": "N2", "file": _P, "old": "            clone_muts.add(data[idx].name)\n", "new": "            clone_muts.add(idx)\n"},
+    {"name": "N2-fill-in-named-root", "kind": "break", "rule": "N2", "file": _P, "old": 'df_records_list.append({"mutation_id": x.name, "clone_id": outlier_node_name})', "new": 'df_records_list.append({"mutation_id": x.name, "clone_id": tree.root_node_name})'},
+    {"name": "N2-clustered-mask-not-inverted", "kind": "break", "rule": "N2", "file": _P, "old": 'clusters.loc[~clusters["mutation_id"].isin(clone_muts)]', "new": 'clusters.loc[clusters["mutation_id"].isin(clone_muts)]'},
+    {"name": "N2-clustered-seen-not-updated", "kind": "break", "rule": "N2", "file": _P, "old": "            clone_muts.update(muts_set)\n", "new": ""},
+    {"name": "N2-clustered-fill-in-named-root", "kind": "break", "rule": "N2", "file": _P, "old": 'missing_muts_df["clone_id"] = outlier_node_name', "new": 'missing_muts_df["clone_id"] = tree.root_node_name'},
+    {"name": "N2-clustered-grouped-by-mutation", "kind": "break", "rule": "N2", "file": _P, "old": 'clusters.groupby("cluster_id")', "new": 'clusters.groupby("mutation_id")'},
+    {"name": "N2-clustered-fill-in-not-appended", "kind": "break", "rule": "N2", "file": _P, "old": '        df_records_list.extend(missing_muts_df.to_dict("records"))\n', "new": ""},
+    {"name": "N2-clustered-first-mutation-only", "kind": "break", "rule": "N2", "file": _P, "old": "for mut in muts_set\n", "new": "for mut in muts_set[:1]\n"},
+    {"name": "N2-clustered-clone-of-cluster-id", "kind": "break", "rule": "N2", "file": _P, "old": "            clone_id = tree_labels[idx]\n", "new": "            clone_id = tree_labels.get(cluster_id, outlier_node_name)\n"},
+    {"name": "benign-N2-records-by-comprehension", "kind": "benign", "file": _P, "old": _FLAT_LOOP, "new": '        df_records_list.extend([{"mutation_id": data[idx].name, "clone_id": tree_labels[idx]} for idx in tree_labels])\n        for idx in tree_labels:\n            clone_muts.add(data[idx].name)\n'},
+    {"name": "benign-N2-hoisted-name", "kind": "benign", "file": _P, "old": _FLAT_LOOP, "new": '        for idx in tree_labels:\n            mutation = data[idx].name\n            record = {"clone_id": tree_labels[idx], "mutation_id": mutation}\n            df_records_list.append(record)\n            clone_muts.add(mutation)\n'},
+    {"name": "benign-N2-clustered-loop-append", "kind": "benign", "file": _P, "old": '            curr_muts_records = [\n                {"mutation_id": mut, "clone_id": clone_id, "cluster_id": cluster_id} for mut in muts_set\n            ]\n\n            clone_muts.update(muts_set)\n\n            df_records_list.extend(curr_muts_records)\n', "new": '            for mut in muts_set:\n                df_records_list.append({"mutation_id": mut, "clone_id": clone_id, "cluster_id": cluster_id})\n            clone_muts.update(muts_set)\n'},
+    # ---- N3 / N4
+    {"name": "N3-explode-dropped", "kind": "break", "rule": "N3", "file": _P, "old": '    labels = labels.explode("sample_id")\n', "new": ""},
+    {"name": "N3-first-sample-only", "kind": "break", "rule": "N3", "file": _P, "old": "[samples] * len(labels)", "new": "[samples[:1]] * len(labels)"},
+    {"name": "N3-grouped-before-explode", "kind": "break", "rule": "N3", "file": _P, "old": '    labels = labels.explode("sample_id")\n    grouped = labels.groupby(["clone_id", "sample_id"])\n', "new": '    grouped = labels.groupby(["clone_id", "sample_id"])\n    labels = labels.explode("sample_id")\n'},
+    {"name": "N4-ccf-from-prevalence", "kind": "break", "rule": "N4", "file": _P, "old": 'group["ccf"] = ccfs[clone_id][samples_idx_dict[sample_id]]', "new": 'group["ccf"] = clonal_prev_dict[clone_id][samples_idx_dict[sample_id]]'},
+    {"name": "N4-positions-off-by-one", "kind": "break", "rule": "N4", "file": _P, "old": "{k: v for v, k in enumerate(samples)}", "new": "{k: v for v, k in enumerate(samples, 1)}"},
+    {"name": "N4-outlier-ccf-zero", "kind": "break", "rule": "N4", "file": _P, "old": '            group["ccf"] = -1\n', "new": '            group["ccf"] = 0\n'},
+    {"name": "N4-dictionaries-swapped", "kind": "break", "rule": "N4", "file": _P, "old": "    ccfs, clonal_prev_dict = get_map_node_ccfs_and_clonal_prev_dicts(tree)", "new": "    clonal_prev_dict, ccfs = get_map_node_ccfs_and_clonal_prev_dicts(tree)"},
+    {"name": "N4-first-sample-for-all", "kind": "break", "rule": "N4", "file": _P, "old": 'group["clonal_prev"] = clonal_prev_dict[clone_id][samples_idx_dict[sample_id]]', "new": 'group["clonal_prev"] = clonal_prev_dict[clone_id][0]'},
+    {"name": "benign-N4-negated-test", "kind": "benign", "file": _P, "old": '        if clone_id in ccfs:\n            group["ccf"] = ccfs[clone_id][samples_idx_dict[sample_id]]\n            group["clonal_prev"] = clonal_prev_dict[clone_id][samples_idx_dict[sample_id]]\n        else:\n            group["ccf"] = -1\n            group["clonal_prev"] = -1\n', "new": '        if clone_id not in ccfs:\n            group["clonal_prev"] = -1\n            group["ccf"] = -1\n        else:\n            col = samples_idx_dict[sample_id]\n            group["ccf"] = ccfs[clone_id][col]\n            group["clonal_prev"] = clonal_prev_dict[clone_id][col]\n'},
+    {"name": "benign-N3-print", "kind": "benign", "file": _P, "old": '    labels = labels.explode("sample_id")\n', "new": '    labels = labels.explode("sample_id")\n    print("rows:", len(labels))\n'},
+    # ---- N5
+    {"name": "N5-built-at-discovery", "kind": "break", "rule": "N5", "file": _V, "old": "    def finish_vertex(self, v, t):\n        node_idx = self.node_indices_rev[v]\n\n        if node_idx in self.parents:", "new": "    def discover_vertex(self, v, t):\n        node_idx = self.node_indices_rev[v]\n\n        if node_idx in self.parents:"},
+    {"name": "N5-no-terminator", "kind": "break", "rule": "N5", "file": _V, "old": 'self.final_string = curr_node_string + ";"', "new": "self.final_string = curr_node_string"},
+    {"name": "N5-children-joined-by-semicolon", "kind": "break", "rule": "N5", "file": _V, "old": '",".join(curr_list)', "new": '";".join(curr_list)'},
+    {"name": "N5-edge-direction-swapped", "kind": "break", "rule": "N5", "file": _V, "old": "        self.child_parent_mapping[child_idx] = parent_idx\n        self.parents.add(parent_idx)", "new": "        self.child_parent_mapping[parent_idx] = child_idx\n        self.parents.add(parent_idx)"},
+    {"name": "N5-children-marked-as-parents", "kind": "break", "rule": "N5", "file": _V, "old": "        self.parents.add(parent_idx)", "new": "        self.parents.add(child_idx)"},
+    {"name": "N5-inner-name-dropped", "kind": "break", "rule": "N5", "file": _V, "old": '"({child_strings}){node_idx}".format(', "new": '"({child_strings})".format('},
+    {"name": "N5-appended-to-own-list", "kind": "break", "rule": "N5", "file": _V, "old": "self.dict_of_lists[parent_idx].append(curr_node_string)", "new": "self.dict_of_lists[node_idx].append(curr_node_string)"},
+    {"name": "N5-children-of-the-parent", "kind": "break", "rule": "N5", "file": _V, "old": "            curr_list = self.dict_of_lists[node_idx]\n            child_strings", "new": "            curr_list = self.dict_of_lists[v]\n            child_strings"},
+    {"name": "N5-search-on-rootless-copy", "kind": "break", "rule": "N5", "file": _T, "old": "        visitor = GraphToNewickVisitor(self)\n        root_idx = self._node_indices[self._ROOT_NODE_NAME]\n        rx.dfs_search(self._graph, [root_idx], visitor)", "new": "        visitor = GraphToNewickVisitor(self)\n        root_idx = self._node_indices[self._ROOT_NODE_NAME]\n        rx.dfs_search(self.graph, [root_idx], visitor)"},
+    {"name": "N5-names-from-forward-map", "kind": "break", "rule": "N5", "file": _V, "old": "        self.node_indices_rev = tree._node_indices_rev\n        self.final_string = None", "new": "        self.node_indices_rev = tree._node_indices\n        self.final_string = None"},
+    {"name": "N5-plain-dict-of-lists", "kind": "break", "rule": "N5", "file": _V, "old": "        self.dict_of_lists = defaultdict(list)\n        self.child_parent_mapping = dict()\n        self.parents = set()\n        self.node_indices_rev = tree._node_indices_rev\n        self.final_string", "new": "        self.dict_of_lists = dict()\n        self.child_parent_mapping = dict()\n        self.parents = set()\n        self.node_indices_rev = tree._node_indices_rev\n        self.final_string"},
+    {"name": "benign-N5-f-string", "kind": "benign", "file": _V, "old": 'curr_node_string = "({child_strings}){node_idx}".format(child_strings=child_strings, node_idx=node_idx)', "new": 'curr_node_string = f"({child_strings}){node_idx}"'},
+    {"name": "benign-N5-concatenation", "kind": "benign", "file": _V, "old": 'curr_node_string = "({child_strings}){node_idx}".format(child_strings=child_strings, node_idx=node_idx)', "new": 'curr_node_string = "(" + ",".join(self.dict_of_lists[node_idx]) + ")" + str(node_idx)'},
+    {"name": "benign-N5-root-arm-first", "kind": "benign", "file": _V, "old": '        if node_idx != self.root_node_name:\n            parent_idx = self.child_parent_mapping[node_idx]\n            self.dict_of_lists[parent_idx].append(curr_node_string)\n        else:\n            self.final_string = curr_node_string + ";"', "new": '        if node_idx == self.root_node_name:\n            self.final_string = curr_node_string + ";"\n        else:\n            self.dict_of_lists[self.child_parent_mapping[node_idx]].append(curr_node_string)'},
+    # ---- N6
+    {"name": "N6-newick-from-another-entry", "kind": "break", "rule": "N6", "file": _P, "old": _OUT, "new": '    _create_results_output_files(out_table_file, out_tree_file, table, Tree.from_dict(results[0]["trace"][map_iter]["tree"]))\n\n\ndef create_topology_dict_from_trace'},
+    {"name": "N6-archive-table-ignores-chain", "kind": "break", "rule": "N6", "file": _P, "old": "                table = get_clone_table(data, samples, tree, clusters=clusters)", "new": '                table = get_clone_table(data, samples, Tree.from_dict(results[0]["trace"][values["iter"]]["tree"]), clusters=clusters)'},
+    {"name": "N6-output-paths-swapped", "kind": "break", "rule": "N6", "file": _P, "old": '    table.to_csv(out_table_file, index=False, sep="\\t")\n    print_string_to_file(tree.to_newick_string(), out_tree_file)', "new": '    table.to_csv(out_tree_file, index=False, sep="\\t")\n    print_string_to_file(tree.to_newick_string(), out_table_file)'},
+    {"name": "N6-consensus-clusters-dropped", "kind": "break", "rule": "N6", "file": _P, "old": '    table = get_clone_table(data, results[0]["samples"], tree, clusters=clusters)\n\n    table = pd.DataFrame(table)', "new": '    table = get_clone_table(data, results[0]["samples"], tree)\n\n    table = pd.DataFrame(table)'},
+    {"name": "N6-archive-table-added-twice", "kind": "break", "rule": "N6", "file": _P, "old": "archive.add(nwk_path, arcname=", "new": "archive.add(filepath, arcname="},
+    {"name": "N6-consensus-table-of-pre-update-tree", "kind": "break", "rule": "N6", "file": _P, "old": '    table = get_clone_table(data, results[0]["samples"], tree, clusters=clusters)\n\n    table = pd.DataFrame(table)', "new": '    table = get_clone_table(data, results[0]["samples"], trees[0], clusters=clusters)\n\n    table = pd.DataFrame(table)'},
+    {"name": "N6-archive-newick-in-shared-directory", "kind": "break", "rule": "N6", "file": _P, "old": "arcname=str(os.path.join(topology_id, nwk_filename))", "new": 'arcname=str(os.path.join("trees", nwk_filename))'},
+    {"name": "benign-N6-helper-inlined", "kind": "benign", "file": _P, "old": _OUT, "new": '    table.to_csv(out_table_file, index=False, sep="\\t")\n    newick = tree.to_newick_string()\n    print_string_to_file(newick, out_tree_file)\n\n\ndef create_topology_dict_from_trace'},
+    {"name": "benign-N6-renamed-local", "kind": "benign", "file": _P, "old": "                table = get_clone_table(data, samples, tree, clusters=clusters)\n                filename = filename_template.format(topology_id)\n                filepath = os.path.join(tmp_dir, filename)\n                table.to_csv(filepath, index=False, sep=\"\\t\")", "new": "                clone_table = get_clone_table(data, samples, tree, clusters=clusters)\n                filename = filename_template.format(topology_id)\n                filepath = os.path.join(tmp_dir, filename)\n                clone_table.to_csv(filepath, index=False, sep=\"\\t\")"},
+]
